@@ -148,6 +148,9 @@ type Plan struct {
 	// OddKeys: affinity key strings are long / contain separators, spaces, NUL and
 	// non-ASCII characters instead of "k<i>"
 	OddKeys bool `json:"odd_keys,omitempty"`
+	// HashKeys: the first keys are pairs of different strings with equal hash values
+	// under the usual string hashes (32-bit FNV-1a and FNV-1, Java's 31-multiplier)
+	HashKeys bool `json:"hash_keys,omitempty"`
 	// Second: at the end the application edits its configuration object in place
 	// and uses it for a second balancer
 	Second bool `json:"second,omitempty"`
@@ -412,6 +415,7 @@ func Generate(r *rand.Rand, profile string, concurrent bool, av Avoid) *Plan {
 	p.UniField = r.IntN(5) == 0
 	p.SharedAddrs = r.IntN(4) == 0
 	p.OddKeys = r.IntN(6) == 0
+	p.HashKeys = !p.OddKeys && r.IntN(6) == 0
 	if concurrent {
 		p.Strategy = r.IntN(6) // 0 random walk, 1-3 PCT depth, 4-5 one long stall
 	}
@@ -1028,6 +1032,47 @@ func Generate(r *rand.Rand, profile string, concurrent bool, av Avoid) *Plan {
 		ops = append(ops, frag...)
 		p.Ops = append(ops, p.Ops[at:]...)
 	}
+	// Directed fragment (fallback x consecutive refreshes): the only READY channel
+	// besides a key's home has been refreshed once without any response since and
+	// is being refreshed again (still READY, still serving); then the home goes
+	// down: calls for the key need that channel as their stand-in.
+	if profile == "fallback" && !concurrent && !p.Cfg.RR && r.IntN(15) == 0 && len(p.Ops) > 4 {
+		p.Cfg.Fallback = true
+		p.Cfg.Min, p.Cfg.Max = 2, 2
+		if p.Cfg.UMs == 0 || p.Cfg.UCalls == 0 || p.Cfg.UMs > 1000 {
+			p.Cfg.UMs, p.Cfg.UCalls = uint32(10*(1+r.IntN(5))), uint32(1+r.IntN(2))
+		}
+		if p.Cfg.WM != 0 && p.Cfg.WM < 8 {
+			p.Cfg.WM = 8
+		}
+		n := int(p.Cfg.UCalls)
+		k1, k2 := 0, 1
+		frag := []Op{{K: OpConn, A: 0, B: ConnProgress}, {K: OpConn, A: 0, B: ConnProgress}, {K: OpConn, A: 1, B: ConnProgress}, {K: OpConn, A: 1, B: ConnProgress},
+			{K: OpPick, B: MBind, Keys: []int{0}}, {K: OpDone, A: -1, B: OutOK, Keys: []int{k1}},
+			{K: OpPick, B: MBound, Keys: []int{k1}}, // stays in flight: the next key is bound to the other channel
+			{K: OpPick, B: MBind, Keys: []int{0}}, {K: OpDone, A: -1, B: OutOK, Keys: []int{k2}}}
+		rounds := 2 + r.IntN(2)
+		for j := 0; j < rounds; j++ {
+			for c := 0; c < n; c++ {
+				frag = append(frag, Op{K: OpPick, B: MBound, Keys: []int{k2}, D: 1, E: 1})
+			}
+			frag = append(frag, Op{K: OpAdvance, E: int(p.Cfg.UMs)<<uint(j) + 2})
+			for c := 0; c < n; c++ {
+				frag = append(frag, Op{K: OpDone, A: -1, B: OutClientDE})
+			}
+			if j < rounds-1 {
+				frag = append(frag, Op{K: OpConn, A: -1, B: ConnProgress}, Op{K: OpConn, A: -1, B: ConnProgress}, Op{K: OpAdvance, E: 1})
+			} else if r.IntN(2) == 0 {
+				frag = append(frag, Op{K: OpConn, A: -1, B: ConnProgress}) // the last replacement is connecting
+			}
+		}
+		frag = append(frag, Op{K: OpConn, A: -3, B: ConnFail}, // the first key's home goes down
+			Op{K: OpPick, B: MBound, Keys: []int{k1}}, Op{K: OpPick, B: MBound, Keys: []int{k1}})
+		at := 1
+		ops := append([]Op{}, p.Ops[:at]...)
+		ops = append(ops, frag...)
+		p.Ops = append(ops, p.Ops[at:]...)
+	}
 	// Directed fragment (fallback x affinity x refresh): a key is unbound through
 	// its stand-in while its home is down; later the stand-in's connection is
 	// refreshed (every READY channel is, their calls all run into the deadline);
@@ -1636,6 +1681,7 @@ func Simplify(p *Plan) []*Plan {
 	add(func(c *Plan) bool { ch := !c.Legal; c.Legal = true; return ch })
 	add(func(c *Plan) bool { ch := c.SharedAddrs; c.SharedAddrs = false; return ch })
 	add(func(c *Plan) bool { ch := c.OddKeys; c.OddKeys = false; return ch })
+	add(func(c *Plan) bool { ch := c.HashKeys; c.HashKeys = false; return ch })
 	add(func(c *Plan) bool { ch := c.Second; c.Second = false; return ch })
 	add(func(c *Plan) bool { ch := c.DynMsg; c.DynMsg = false; return ch })
 	add(func(c *Plan) bool { ch := c.UniField; c.UniField = false; return ch })
